@@ -454,7 +454,7 @@ func sortedKeys(m M) []string {
 
 var buildOps = map[string]bool{"headers": true, "rowitems": true, "sep": true, "appendrow": true, "newrow": true,
 	"rowadd": true, "addrow": true, "setprop": true, "mutate": true, "update": true, "rowerr": true, "tblerr": true,
-	"copycell": true, "takecol": true}
+	"copycell": true, "takecol": true, "rowaddcell": true}
 
 func cloneJSON(v interface{}) interface{} {
 	switch x := v.(type) {
